@@ -52,12 +52,43 @@ def term_kinds():
     ks["param"] = lambda v: P
     ks["const"] = lambda v: ("c", 1.5)
     ks["x*p"] = lambda v: ("bin", "*", v, P)
+    ks["2*x"] = lambda v: ("bin", "*", ("c", 2), v)
     for i, leaf in enumerate(L.layer_D_leaves()):
         ks["node%02d:%s" % (i, leaf[0])] = (lambda leaf: lambda v: leaf)(leaf)
     return ks
 
 
 REDUCED = ["var", "sq", "un:sin", "un:atan", "un:log2", "un:abs", "x**y", "param", "const", "node00:sum", "node05:dot", "node17:qform"]
+
+
+def left_deep_shared(b, terms, ops):
+    """left-deep accumulation in which equal terms are ONE object used many times (s = 2*x; obj = obj + s + ...)"""
+    objs = {}
+
+    def get(t):
+        if t not in objs:
+            objs[t] = b.build(t)
+        return objs[t]
+
+    acc = get(terms[0])
+    for t, op in zip(terms[1:], ops):
+        x = get(t)
+        acc = acc + x if op == "+" else acc - x if op == "-" else acc * x if op == "*" else acc / x
+    return acc
+
+
+def lp_coefficients(e):
+    """objective row of the LP the solve path extracts for `minimize e`"""
+    from optyx import Problem, analysis
+
+    P = Problem().minimize(e)
+    if not P._is_linear_problem():
+        return None          # not on the LP route (e.g. a Parameter coefficient): nothing to extract
+    lp = analysis.LinearProgramExtractor().extract(P)
+    return dict(zip(list(lp.variables), [float(c_) for c_ in np.asarray(lp.c, dtype=float)]))
+
+
+LINEAR_KINDS = ("var", "x*p", "2*x")
 
 
 def left_deep(b, terms, ops, warm=False):
@@ -413,6 +444,36 @@ def check_real(kind, op, n, rep=None, want=None):
         obs("compile_jacobian", lambda: (lambda f: [np.asarray(f(x), dtype=float).reshape(-1).tolist() for x in xs])(
             autodiff.compile_jacobian([e], V)), chk_grad("compile_jacobian"))
 
+    if kind in LINEAR_KINDS and op in "+-" and len(okk) and n <= 900:      # LP extraction belongs to `solve`: n <= 900
+        k0 = int(okk[0])
+
+        def chk_lp(label):
+            def f(val):
+                if val is None:
+                    return
+                got = [val.get(nm, 0.0) for nm in names]
+                if not close(np.array(got), ref.g[:, k0], errg[:, k0] + 1e-11 * n * np.abs(ref.g[:, k0]), REL_D * n).all():
+                    fails.add(f"lp-coefficients:{label}", config=tag, got=got, expected=ref.g[:, k0])
+            return f
+
+        obs("lp-extract", lambda: lp_coefficients(e), chk_lp("fresh-term-objects"))
+        obs("lp-extract-shared", lambda: lp_coefficients(left_deep_shared(Builder(params=params), terms, ops)),
+            chk_lp("shared-term-objects"))
+    if n <= 900:
+        es = left_deep_shared(Builder(params=params), terms, ops)
+        Vs = None
+
+        def shared_vals():
+            bs = Builder(params=params)
+            e2 = left_deep_shared(bs, terms, ops)
+            V2 = bs.variables_for(names)
+            f = compiler.compile_expression(e2, V2)
+            g = compiler.compile_gradient(e2, V2)
+            return [float(np.asarray(f(x)).reshape(-1)[0]) for x in xs], [np.asarray(g(x), dtype=float).reshape(-1).tolist() for x in xs]
+
+        if op in "+-":
+            obs("compile-shared-terms", shared_vals, lambda val: (chk_val("compile-shared-terms")(val[0]), chk_grad("compile_gradient-shared-terms")(val[1])))
+
     def sym():
         gs = [autodiff.gradient(e, v) for v in V]
         return [[iter_eval(g, pd) for g in gs] for pd in pds]
@@ -541,7 +602,7 @@ def small_items(tier):
 
 def real_items(tier):
     items = []
-    kinds = ["var", "sq", "un:sin", "un:atan", "un:asinh", "un:log2", "un:exp", "un:abs", "un:cosh", "un:sqrt", "x*p", "2**x"]
+    kinds = ["var", "sq", "un:sin", "un:atan", "un:asinh", "un:log2", "un:exp", "un:abs", "un:cosh", "un:sqrt", "x*p", "2**x", "2*x"]
     if tier == "thorough":
         kinds = [k for k in term_kinds() if not k.startswith("node")] + ["node00:sum", "node05:dot", "node17:qform"]
     for k in kinds:
